@@ -24,6 +24,9 @@ type c14Case struct {
 	// Rehydrate: "" = no rehydrate callback; "count" = one that records its
 	// invocations; "strict" = one that also panics when handed another method's state
 	Rehydrate string `json:"rehydrate,omitempty"`
+	// Mixed: the set presented at B is B's own fresh cursor with A's call token
+	// (the call cache is off then, so the server has to open that call token)
+	Mixed bool `json:"mixed,omitempty"`
 }
 
 var c14Methods = []string{"s_prod", "s_prod_h", "s_exch", "s_exch_h", "s_dyn"}
@@ -56,6 +59,9 @@ func genC14(t *rapid.T) c14Case {
 	c.Warm = rapid.IntRange(0, 3).Draw(t, "warm")
 	c.InputOf = []string{"tick", "a", "b"}[rapid.IntRange(0, 2).Draw(t, "input")]
 	c.Rehydrate = []string{"", "count", "count", "strict"}[rapid.IntRange(0, 3).Draw(t, "rehydrate")]
+	if rapid.IntRange(0, 5).Draw(t, "mixed") == 0 {
+		c.Mixed, c.Cache0 = true, true
+	}
 	return c
 }
 
@@ -76,7 +82,7 @@ func runC14(c c14Case) (out lib.Outcome) {
 			rehydMu.Lock()
 			rehydrated = append(rehydrated, method)
 			rehydMu.Unlock()
-			if c.Rehydrate == "strict" && method == c.B {
+			if c.Rehydrate == "strict" && method == c.B && !c.Mixed {
 				// what a real callback does: treat the state as the type its method builds
 				panic("rehydrate for " + method + " was handed the state of another method")
 			}
@@ -131,13 +137,38 @@ func runC14(c c14Case) (out lib.Outcome) {
 		extra = append(extra, [2]string{lib.KCancel, "true"})
 		out.Label("cancel")
 	}
+	xCursor := cursor
+	if c.Mixed {
+		// B's own stream, minted here and now; its cursor goes with A's call token
+		out.Label("mixed-token-set")
+		dynB := ""
+		if kindB == "dynamic" {
+			dynB = "producer"
+			if kindA == "exchange" {
+				dynB = "exchange"
+			}
+		}
+		callB := lib.CallSpec{Kind: "stream", Method: c.B, CancelAt: -1, Ticks: 4,
+			Stream: &lib.StreamScript{ID: "c14-b", InitOutcome: "ok", DynKind: dynB, DynInput: true, Turns: []lib.TurnSpec{{Act: "emit"}, {Act: "emit"}, {Act: "emit"}}}}
+		tb := lib.HTTPInit(h, "", callB, nil)
+		if tb.Resp.Panic != "" || tb.Resp.Status != 200 || tb.Cursor == "" {
+			out.Violate("C14/harness-init", "init at %s failed: status=%d cursor=%q", c.B, tb.Resp.Status, tb.Cursor)
+			return
+		}
+		xCursor = tb.Cursor
+		if bk := callB.ConcreteKind(); bk == "exchange" {
+			in = lib.Int64Batch(lib.InSchema, 5)
+		} else {
+			in = nil
+		}
+	}
 	rehydMu.Lock()
 	rehydBefore := len(rehydrated)
 	rehydMu.Unlock()
-	x := lib.HTTPContinue(h, "", c.B, in, cursor, callTok, extra, nil)
+	x := lib.HTTPContinue(h, "", c.B, in, xCursor, callTok, extra, nil)
 	rehydMu.Lock()
 	for _, m := range rehydrated[rehydBefore:] {
-		if m == c.B {
+		if m == c.B && !c.Mixed {
 			out.Violate("C14/rehydrate-ran-on-foreign-state", "the rehydrate callback was invoked for method %s on a state minted by %s", c.B, c.A.Method)
 			break
 		}
@@ -176,11 +207,11 @@ func runC14(c c14Case) (out lib.Outcome) {
 
 var propC14 = lib.Prop[c14Case]{
 	ID: "C14",
-	Rule: "ordered pairs (A,B) of distinct stream methods over producer/exchange (+-header)/dynamic-producer/dynamic-exchange (so pairs sharing a state type and pairs whose state lacks the other interface both occur); tokens minted at A after 0-3 continuations, presented at B's /exchange with a tick, A-shaped or B-shaped input, with or without the cancel flag, producer batch limit 1-2, call cache default or disabled, no rehydrate callback / a recording one / one that panics when handed another method's state; " +
+	Rule: "ordered pairs (A,B) of distinct stream methods over producer/exchange (+-header)/dynamic-producer/dynamic-exchange (so pairs sharing a state type and pairs whose state lacks the other interface both occur); tokens minted at A after 0-3 continuations, presented at B's /exchange (the full set, or in a sixth of the cases A's call token with B's own fresh cursor and the call cache off) with a tick, A-shaped or B-shaped input, with or without the cancel flag, producer batch limit 1-2, call cache default or disabled, no rehydrate callback / a recording one / one that panics when handed another method's state; " +
 		"oracle: 4xx with an EXCEPTION body, no panic, the state call log unchanged by the cross request, the rehydrate callback never invoked for B. Every case is non-trivial (A != B by construction).",
 	Gen:          genC14,
 	Run:          runC14,
-	Essential:    []string{"shared-state-type", "a:producer", "a:exchange", "cancel", "rehydrate:count", "rehydrate:strict"},
+	Essential:    []string{"shared-state-type", "a:producer", "a:exchange", "cancel", "rehydrate:count", "rehydrate:strict", "mixed-token-set"},
 	EssentialMin: 200,
 }
 
